@@ -479,8 +479,10 @@ def real_decode(data, cfg=None, allow_plugins=True):
     c.allow_plugins = allow_plugins
     err, out = io.StringIO(), io.StringIO()
     try:
-        with redirect_stderr(err), redirect_stdout(out):
+        with redirect_stderr(err), redirect_stdout(out), common.deadline(common.call_limit()):
             eid, text = peltool.parsePEL(DataStream(data, byte_order='big', is_signed=False), c, False)
+    except common.Hang as e:
+        return ('error', 'Hang', str(e), out.getvalue())
     except Exception as e:  # noqa
         return ('error', type(e).__name__, str(e)[:100], out.getvalue())
     if not text:
